@@ -79,6 +79,10 @@ func c17Special(rng *Rng, n int) []string {
 		"ab-.cde", "abc.d-e", "a-b.c-d", "xn--abc.def", "abc.def.ghi.jkl.mno", "100.200.100.abc", "0x1.0x2.0x3.0x4",
 		"1e1.100.100.100", "abc\x00def", "abc def", "abc%2e", "ABC", "abC", "a_b", "ab", "a", "abc", "a-c", "-ab", "ab-", "a.b",
 		"aaa.bbb", "aaa..bbb", "aaa.bb", "aaa.-bb", "aaa.b-b", "9aa.9bb", "a--", "a--b", "0.0.0.0", "100.100.100.100")
+	// names a server might be tempted to give a meaning of its own (probe, console and static paths): to this
+	// server they are bucket names like any other
+	out = append(out, "healthz", "health", "livez", "readyz", "metrics", "status", "ping", "ready", "live", "api", "admin", "debug", "pprof", "minio", "console",
+		"static", "version", "info", "login", "logout", "index.html", "favicon.ico", "robots.txt", "crossdomain.xml", "swagger", "graphql", "well-known", "null", "nil", "undefined", "true", "false", "new", "uploads", "versions", "location", "versioning", "delete")
 	// names that are several lines, some or all of them valid names on their own; other white space
 	// and control characters around and inside valid names
 	out = append(out, "aaa\n", "\naaa", "aaa\nA_", "A_\naaa", "aaa.\nbbb", "100.100.100\n1", "aaa\nbbb", "aaa\r\nbbb", "aaa\r", "\raaa", "aaa\tbbb", "\taaa", "aaa\x0b", "aaa\x0cbbb",
